@@ -1,6 +1,6 @@
 \* every run of the algorithms terminates (no stuck state: deadlock checking is on, finished runs stutter explicitly)
 CONSTANT Shapes <- S_Live
-CONSTANT MaxPieces = 3
+CONSTANT MaxPieces = 2
 CONSTANT MaskMode = "basic"
 CONSTANT Tasks = {"convert", "annotate"}
 CONSTANT Patterns = {"of", "alt"}
